@@ -30,3 +30,6 @@ def rules(ctx):
     S.compaction_target_rules(ctx)
     S.system_freed_store_rules(ctx)
     S.state_writer_rules(ctx)
+    S.mutator_release_rules(ctx)
+    S.free_verdict_rules(ctx)
+    S.key_compare_rules(ctx)
